@@ -82,12 +82,13 @@ def run(ctx):
     else:
         viol(report, "C07-R2", "Name::compress_append", "pointer-form", "the pointer is not written as one big-endian u16 of `offset | 0xC000` "
              "(or-constants %s, 2-byte writes %d)" % ([hex(x) for x in ors], len(ptr)), "%s:%d" % (ca.file, ca.line))
-    ins = [e for e in aca.events if e.get("callee") and e["callee"]["def"].endswith("VacantEntry::<'a, K, V, A>::insert")]
+    import compress as _compress
+    tins = _compress.table_insertions(aca)
+    ins = [x[0] for x in tins]
     report.count()
     if len(ins) == 1:
-        v = ins[0]["vals"][1]
         st = ins[0]["st"]
-        val = v[1] if v is not None and v[0] == "lin" else None
+        val = tins[0][1]
         wide = aca.derived.get(val.t[0][0]) if (val is not None and len(val.t) == 1 and val.t[0][0] in aca.derived) else val
         if any(c is not None and entails(st.facts, aca.iv, c - 0x3FFF, aca.depth) for c in (val, wide)):
             report.nontriv("14-bit")
@@ -146,10 +147,10 @@ def run(ctx):
             else:
                 why = "recorded %s, position at the start of the label is %s" % (wide, wphi[0] if wphi else "?")
         # key = suffix starting at the current label
-        ent = [e for e in aca.events if e.get("callee") and e["callee"]["def"].endswith("HashMap::<K, V, S, A>::entry")]
         keyok = False
-        if len(ent) == 1 and ent[0]["vals"][1] is not None and ent[0]["vals"][1][0] == "slice":
-            sid = ent[0]["vals"][1][1]
+        kv = tins[0][2]
+        if kv is not None and kv[0] == "slice":
+            sid = kv[1]
             sl = [s for s in aca.slices if s["sid"] == sid]
             if sl and sl[0]["kind"] == "rangefrom" and sl[0]["root"].endswith(".labels") and len(sl[0]["off"].t) == 1 and \
                     sl[0]["off"].c == 0 and sl[0]["off"].t[0][1] == 1 and sl[0]["off"].t[0][0].startswith(("en", "it")):
